@@ -64,6 +64,8 @@ type VerifOp struct {
 	Point    string        `json:"point,omitempty"` // crash: hook point name, e.g. delete.afterRecord
 	Public   bool          `json:"public,omitempty"` // create / crash create: dataset with publicNamespaces
 	Slot     string        `json:"slot,omitempty"`   // hold / stale: dataset handle; keep / cont: continuation
+	Method   string        `json:"method,omitempty"` // http: DELETE | POST | PATCH on /datasets/<seg>
+	Seg      string        `json:"seg,omitempty"`    // http: the path segment as the client sends it (escaped)
 }
 
 type VerifCase struct {
@@ -95,6 +97,8 @@ type VerifOpObs struct {
 	Names   []string     `json:"names,omitempty"`  // names / metas
 	Ids     []int        `json:"ids,omitempty"`    // names: internal dataset id of each name (same order)
 	HasCont bool         `json:"hascont,omitempty"` // keep: the first page came with a continuation
+	Status  int          `json:"status,omitempty"`  // http: status code
+	Sub     []VerifOpObs `json:"sub,omitempty"`     // race: what the other client's create and write returned
 	Hit     bool         `json:"hit,omitempty"`    // crash: the hook point was reached (the op died there)
 	Before  [][]int      `json:"before,omitempty"` // gc / census: [family, dataset id, number of keys], sorted
 	After   [][]int      `json:"after,omitempty"`  // gc
@@ -164,6 +168,9 @@ type verifHub struct {
 	held  map[string]*Dataset       // dataset handles obtained earlier (die with the process)
 	conts map[string][]*RelatedFrom // continuations of paged queries (plain data: survive a restart)
 }
+
+// VerifC07HTTP is set by the driver's main to the shim in package web (dataset handlers behind an echo router)
+var VerifC07HTTP func(store *Store, dsm *DsManager, method, path, body string) (int, string)
 
 func verifCreateCfg(public bool) *CreateDatasetConfig {
 	if !public {
@@ -266,6 +273,35 @@ func verifDoOp(h *verifHub, op VerifOp, idx int, times map[int]int64, tokens map
 		h.close()
 		h.open()
 		h.held = map[string]*Dataset{}
+	case "http":
+		// dataset management through the HTTP entry point: DELETE / POST / PATCH {"ID": to} on /datasets/<seg>
+		body := ""
+		if op.Method == "PATCH" {
+			b, _ := json.Marshal(map[string]string{"ID": op.To})
+			body = string(b)
+		}
+		st, pn := VerifC07HTTP(store, h.dsm, op.Method, "/datasets/"+op.Seg, body)
+		oo.Status = st
+		oo.Panic = pn
+	case "race":
+		// rename op.Ds -> op.To is held at its first wait for the dataset-manager lock; meanwhile another client creates
+		// op.To and writes op.Ents to it; then the rename goes on
+		fired := false
+		verifhook.SetHandler(func(name, arg string) {
+			if !fired && name == "lock.wait" && arg == "#dsm" {
+				fired = true
+				verifhook.SetHandler(nil)
+				oo.Hit = true
+				oo.Sub = append(oo.Sub, verifDoOp(h, VerifOp{Op: "create", Ds: op.To}, idx, times, tokens))
+				oo.Sub = append(oo.Sub, verifDoOp(h, VerifOp{Op: "batch", Ds: op.To, Ents: op.Ents}, idx, times, tokens))
+			}
+		})
+		func() {
+			defer verifhook.SetHandler(nil)
+			if _, err := h.dsm.UpdateDataset(op.Ds, &UpdateDatasetConfig{ID: op.To}); err != nil {
+				oo.Err = err.Error()
+			}
+		}()
 	case "hold":
 		ds := h.dsm.GetDataset(op.Ds)
 		if ds == nil {
